@@ -382,3 +382,16 @@ CLAIMS["C16"] = (
     "value)",
     "6/C16", TRUSTED + "; truncate and conjugate are not known to the parser and are outside the fragment",
     "TLA+ generated fragment + TLC trace validation of the print/parse round trip")
+
+CLAIMS["C18"] = (
+    "model_checking",
+    "The parser is specified as a machine without state: TLC enumerates every token string up to length 3 (thorough: "
+    "4, sampled) over 30 tokens (identifiers, numbers, operators, brackets, separators, logic signs, junk, non-ASCII "
+    "and NUL bytes) plus long nestings, in runs of 8 consecutive inputs for one parser object; each input is parsed "
+    "by the reused object, by a fresh parse() and by parse_sbml(); TLC validates that every outcome is an expression "
+    "or a library exception and that the reused object's outcome equals the fresh one at every position (after "
+    "failed parses too); crashes and hangs end the harness and are attributed to the case; the thorough tier replays "
+    "on an ASan+UBSan build so that out-of-bounds accesses and undefined behaviour are reported",
+    "6/C18", TRUSTED + ", AddressSanitizer/UBSan (thorough tier); 'all byte strings' is approximated by exhaustive "
+    "short token strings, not by coverage-guided fuzzing",
+    "TLA+ stateless-parser contract + exhaustive token strings + TLC trace validation (+ sanitizers)")
